@@ -175,7 +175,63 @@ def normalise_fn(fn):
     n2(body)
 
 
-def normalise_items(items):
+def trivial_getters(items):
+    """{type: {method: field}} for `fn m(&self) -> .. { &self.f }` / `self.f.clone()` / `self.f` in the impls of a file"""
+    from astlib import block_tail, strip
+
+    out = {}
+    for it in items:
+        if it.get("k") == "Mod" and it.get("items"):
+            for k, v in trivial_getters(it["items"]).items():
+                out.setdefault(k, {}).update(v)
+        if it.get("k") != "Impl":
+            continue
+        ty = it["self_ty"].split("<")[0].strip()
+        for sub in it.get("items", []):
+            if sub.get("k") != "Fn" or not sub.get("body"):
+                continue
+            ins = sub["sig"]["inputs"]
+            if len(ins) != 1 or not ins[0].get("self"):
+                continue
+            if len(sub["body"]["stmts"]) != 1:
+                continue
+            t = block_tail(sub["body"])
+            if t is None:
+                continue
+            t = strip(t)
+            if t["k"] == "Field" and t["base"].get("k") == "Path" and t["base"]["path"] == "self":
+                out.setdefault(ty, {})[sub["name"]] = t["member"]
+    return out
+
+
+def inline_getters(items, getters=None):
+    """N4: inside the impls of a type, `self.m()` where m is a trivial getter of that type reads as `self.<field>`"""
+    if getters is None:
+        getters = trivial_getters(items)
+    for it in items:
+        if it.get("k") == "Mod" and it.get("items"):
+            inline_getters(it["items"], getters)
+        if it.get("k") != "Impl":
+            continue
+        ty = it["self_ty"].split("<")[0].strip()
+        g = getters.get(ty)
+        if not g:
+            continue
+        for sub in it.get("items", []):
+            if sub.get("k") != "Fn" or not sub.get("body"):
+                continue
+            if sub["name"] in g:
+                continue  # the getter itself
+            for n in walk(sub["body"]):
+                if n["k"] == "MethodCall" and not n["args"] and n["method"] in g and n["recv"].get("k") == "Path" and n["recv"]["path"] == "self":
+                    fld = {"k": "Field", "line": n.get("line", 0), "base": n["recv"], "member": g[n["method"]]}
+                    n.clear()
+                    n.update(fld)
+
+
+def normalise_items(items, top=True):
+    if top:
+        inline_getters(items)
     for it in items:
         k = it.get("k")
         if k == "Fn":
@@ -185,4 +241,4 @@ def normalise_items(items):
                 if sub.get("k") == "Fn":
                     normalise_fn(sub)
         elif k == "Mod" and it.get("items"):
-            normalise_items(it["items"])
+            normalise_items(it["items"], top=False)
